@@ -6,6 +6,7 @@ package main
 import (
 	"bytes"
 	"encoding/hex"
+	"errors"
 	"flag"
 	"fmt"
 	"io"
@@ -80,6 +81,25 @@ func (c *chunkReader) Read(p []byte) (int, error) {
 		return n, io.EOF
 	}
 	return n, nil
+}
+
+// pipeLike has a Seek method that always fails, like the read end of a pipe (an *os.File): a
+// reader kind the library must treat like any other non-seekable stream.
+type pipeLike struct{ r io.Reader }
+
+func (p pipeLike) Read(b []byte) (int, error) { return p.r.Read(b) }
+func (p pipeLike) Seek(int64, int) (int64, error) {
+	return 0, errors.New("seek: illegal seek")
+}
+
+var pipeAlt int
+
+// maybePipe wraps every other non-seekable reader in pipeLike.
+func maybePipe(r io.Reader) io.Reader {
+	if pipeAlt++; pipeAlt%2 == 0 {
+		return pipeLike{r}
+	}
+	return r
 }
 
 func newChunkReader(data []byte, sizes []int) *chunkReader {
@@ -282,7 +302,7 @@ func implEvaluate(t byte, b []byte) string {
 func implStream(t byte, b []byte, sizes []int) (res string, val *wv.V, consumed int) {
 	p := safely(func() {
 		cr := newChunkReader(b, sizes)
-		sr := binary.Default.Reader(cr)
+		sr := binary.Default.Reader(maybePipe(cr))
 		defer sr.Close()
 		v, err := wv.ReadStream(sr, t)
 		if err != nil {
@@ -314,7 +334,7 @@ func implSkip(seek bool, t byte, b []byte, sizes []int) (res string, consumed in
 			return
 		}
 		cr := newChunkReader(b, sizes)
-		sr := binary.NewStreamReader(cr)
+		sr := binary.NewStreamReader(maybePipe(cr))
 		defer sr.Close()
 		if err := sr.Skip(wire.Type(t)); err != nil {
 			res = "err"
@@ -578,7 +598,7 @@ func runC02(c *checker, r *rng.R) {
 		}
 	}
 	c.flush()
-	c.rep.Rule = "values: bounded-exhaustive enumeration of small shapes + random typed values (all 11 types, nested, raw element-type bytes on empty containers, extreme ints, special doubles) + binaries at the 1 MiB threshold, two over-threshold binaries per value, long maps/lists/sets of fixed-width items (300–6000 entries), every binary length 120–300 and around powers of two up to 64 KiB; random-access decode through bytes.Reader and through a ReaderAt that returns io.EOF together with the last bytes; every third value preceded by an Encode and a stream-writer sequence of the same value into a destination that fails half-way; stream reads (binaries alternately through ReadBinary and ReadString) under rotating segmentation, every other reader returning its last byte together with io.EOF; non-trivial = has more than one node or is a double/binary; distinct by canonical text"
+	c.rep.Rule = "values: bounded-exhaustive enumeration of small shapes + random typed values (all 11 types, nested, raw element-type bytes on empty containers, extreme ints, special doubles) + binaries at the 1 MiB threshold, two over-threshold binaries per value, long maps/lists/sets of fixed-width items (300–6000 entries), every binary length 120–300 and around powers of two up to 64 KiB; random-access decode through bytes.Reader and through a ReaderAt that returns io.EOF together with the last bytes; every third value preceded by an Encode and a stream-writer sequence of the same value into a destination that fails half-way; stream reads and skips (every other non-seekable reader with a Seek method that always fails, like the read end of a pipe; binaries alternately through ReadBinary and ReadString) under rotating segmentation, every other reader returning its last byte together with io.EOF; non-trivial = has more than one node or is a double/binary; distinct by canonical text"
 }
 
 // ---- C03 ----
